@@ -282,10 +282,24 @@ def guarded(ctx, sim, call):
                          n for n, f in (("random module state", touched_mod), ("dendropy.utility.GLOBAL_RNG state", touched_glob)) if f))
 
 
-# A run-to-run difference that was observed once for a case is a proof of non-determinism; it is remembered so that the
-# same case fails again when Hypothesis re-executes it (a difference caused by e.g. iteration over an id()-hashed set
-# need not show up on every execution, and Hypothesis rejects tests that fail only sometimes).
-OBSERVED_NONDETERMINISM = {}
+# A violation observed once for a case is remembered (see `sticky` below): a run-to-run difference caused by e.g.
+# iteration over an id()-hashed set need not show up on every execution, and Hypothesis rejects tests that fail only
+# sometimes for the same input.
+OBSERVED = {}
+
+
+def sticky(fn):
+    def wrapped(ctx, case):
+        k = runner.sha([fn.__name__, case])
+        if k in OBSERVED and not ctx.replay_mode:
+            ctx.fail(*OBSERVED[k])
+        try:
+            return fn(ctx, case)
+        except runner.Violation as v:
+            OBSERVED[k] = (v.clause, v.key, v.detail)
+            raise
+    wrapped.__name__ = fn.__name__
+    return wrapped
 
 
 def run_twice(ctx, sim, case, simulate, inspect):
@@ -294,9 +308,6 @@ def run_twice(ctx, sim, case, simulate, inspect):
     import dendropy.utility
     seed = case["seed"]
     via_global = case["via_global"]
-    sticky = runner.sha([sim, case])
-    if sticky in OBSERVED_NONDETERMINISM:
-        ctx.fail("deterministic", K("two_runs_differ", sim), OBSERVED_NONDETERMINISM[sticky])
     r1 = random.Random(seed)
     res1 = guarded(ctx, sim, lambda: ctx.call(K("raises", sim), simulate, r1))
     seen1 = inspect(res1)
@@ -309,9 +320,8 @@ def run_twice(ctx, sim, case, simulate, inspect):
         seen2 = inspect(res2)
         keep.append(res2)
         if seen1.canon != seen2.canon:
-            OBSERVED_NONDETERMINISM[sticky] = "two runs from random.Random(%d) with equal arguments differ; %s" % (
-                seed, first_diff(seen1.canon, seen2.canon))
-            ctx.fail("deterministic", K("two_runs_differ", sim), OBSERVED_NONDETERMINISM[sticky])
+            ctx.fail("deterministic", K("two_runs_differ", sim),
+                     "two runs from random.Random(%d) with equal arguments differ; %s" % (seed, first_diff(seen1.canon, seen2.canon)))
             break
         ctx.check(r1.getstate() == r2.getstate(), "deterministic", K("rng_consumption_differs", sim),
                   "the two runs left the generator in different states")
@@ -717,13 +727,13 @@ def sc_constrained_kingman(ctx, case):
 
 
 SUBCHECKS = {
-    "birth_death_tree": sc_birth_death,
-    "fast_birth_death_tree": sc_fast_birth_death,
-    "uniform_pure_birth_tree": sc_uniform_pure_birth,
-    "pure_kingman_tree": sc_pure_kingman,
-    "mean_kingman_tree": sc_mean_kingman,
-    "contained_coalescent_tree": sc_contained_coalescent,
-    "constrained_kingman_tree": sc_constrained_kingman,
+    "birth_death_tree": sticky(sc_birth_death),
+    "fast_birth_death_tree": sticky(sc_fast_birth_death),
+    "uniform_pure_birth_tree": sticky(sc_uniform_pure_birth),
+    "pure_kingman_tree": sticky(sc_pure_kingman),
+    "mean_kingman_tree": sticky(sc_mean_kingman),
+    "contained_coalescent_tree": sticky(sc_contained_coalescent),
+    "constrained_kingman_tree": sticky(sc_constrained_kingman),
 }
 
 
